@@ -37,7 +37,9 @@ def svd_case(draw):
     index = draw(st.integers(1, d - 1))
     klass = draw(st.sampled_from(['generic', 'generic', 'constructed', 'preorth', 'illcond']))
     cplx = draw(st.booleans())
-    case = {'rows': rows, 'index': index, 'klass': klass, 'cplx': cplx, 'seed': draw(gen.SEED), 'scale_exp': draw(st.sampled_from([0, 0, 0, -12, -4, 5, -20, -30, 15])),
+    case = {'rows': rows, 'index': index, 'klass': klass, 'cplx': cplx, 'seed': draw(gen.SEED),
+            # threshold / max_rank handed over as NumPy scalars (np.float64 from an array of tolerances, np.int64 from a shape)
+            'numpy_params': draw(st.sampled_from([False, False, True])), 'scale_exp': draw(st.sampled_from([0, 0, 0, -12, -4, 5, -20, -30, 15])),
             'overwrite': draw(st.booleans()), 'layout': draw(gen.LAYOUT)}
     if klass == 'generic':
         case['ranks'] = [1] + [draw(gen.SMALL_RANK) for _ in range(d - 1)] + [1]
@@ -85,6 +87,9 @@ def svd_case(draw):
             case['max_rank'] = draw(st.sampled_from(sep))
             case['keep'] = case['max_rank']
             case['threshold'] = 0
+        if klass == 'constructed':
+            # the orthonormal side cores only nearly so: every core rescaled by 1 +- 3e-6, or stored in single precision and read back
+            case['near_gauge'] = draw(st.sampled_from([None, None, 'rescale', 'float32']))
     return case
 
 
@@ -121,6 +126,10 @@ def build_case(case):
         # s is absorbed into the last left core; then a gauge that keeps both sides orthonormal is all that is applied
         left[-1] = left[-1] * s[None, None, None, :]
         cores = left + right
+        if case.get('near_gauge') == 'rescale':
+            cores = [np.array(c) * (1.0 + 3e-6 * rng.uniform(-1, 1)) for c in cores]
+        elif case.get('near_gauge') == 'float32':
+            cores = [np.array(c).astype(np.complex64 if np.iscomplexobj(c) else np.float32).astype(np.asarray(c).dtype) for c in cores]
     else:
         left[-1] = left[-1] * s[None, None, None, :]
         cores = left + right
@@ -215,6 +224,8 @@ def body_svd(case):
     if prov and case['klass'] == 'generic':
         lab.add('library_provenance')
     # guard band: no singular value in the ambiguous zone between 'numerically zero' and 'well above every negligible threshold'
+    if case.get('near_gauge'):
+        lab.add('nearly_orthonormal_sides')
     if case['klass'] == 'illcond':
         numrank = int(np.sum(sig > 1e-13 * s0))          # prescribed spectrum down to 1e-8: everything above rounding is kept
     else:
@@ -226,9 +237,12 @@ def body_svd(case):
         # a cap below a bond rank would truncate inside the sweeps (no bound claimed): keep caps >= all ranks
         assume(mr >= max(case['ranks']))
     before = build.snapshot(t)
+    if case.get('numpy_params'):
+        th = np.float64(th)
+        lab.add('numpy_scalar_parameters')
     kw = dict(threshold=th, ortho_l=case['flags'][0], ortho_r=case['flags'][1], overwrite=case['overwrite'])
     if case['max_rank'] is not None:
-        kw['max_rank'] = case['max_rank']
+        kw['max_rank'] = np.int64(case['max_rank']) if case.get('numpy_params') else case['max_rank']
     u, s, v = t.svd(idx, **kw)
     require_consistent(u, 'svd_consistent')
     require_consistent(v, 'svd_consistent')
